@@ -132,14 +132,14 @@ theorem loop_same {cfg : Cfg} (f : Nat) {p q : Parser} {more : Bool} {raw r : By
 
 /-- the first loop iteration on a request line -/
 theorem stepOnce_request_line (cfg : Cfg) (p : Parser) (m u v rest : Bytes) (url : Url)
-    (hst : p.state = .initialized) (hty : p.ty = .request) (hm : SP ∉ m) (hu : SP ∉ u)
+    (hst : p.state = .initialized) (hty : p.ty = .request) (hne : m ≠ []) (hm : SP ∉ m) (hu : SP ∉ u)
     (hlf : ∀ c ∈ m ++ SP :: (u ++ SP :: v), c ≠ LF) (he : fromBytes cfg.allowedSchemes u = .ok url) :
     ∃ p1, stepOnce cfg p (m ++ SP :: (u ++ SP :: v) ++ CRLF ++ rest) = .ok (p1, !rest.isEmpty, rest) ∧
       p1.state = .lineRcvd ∧ p1.version = some v ∧ p1.url = some url ∧
       p1.host = (setLineAttributes cfg { p with method := some m, isTunnel := p.isTunnel || m == cfg.connectMethod } url).host ∧
       p1.port = (setLineAttributes cfg { p with method := some m, isTunnel := p.isTunnel || m == cfg.connectMethod } url).port ∧
       p1.isTunnel = (p.isTunnel || m == cfg.connectMethod) := by
-  have hpl := processLine_request cfg p m u v rest hty hm hu hlf
+  have hpl := processLine_request cfg p m u v rest hty hne hm hu hlf
   rw [he] at hpl
   simp only at hpl
   refine ⟨{ setLineAttributes cfg
@@ -167,7 +167,8 @@ which opens the new connection to that key).  It never drops the request
 silently, never answers 502 before connecting, never connects anywhere else. -/
 theorem C14_end_to_end (cfg : Cfg) (m v rest : Bytes) (t : Target)
     (h : t.WF cfg.allowedSchemes) (hf : t.form ≠ .origin) (hd : cfg.defaultHttpPort ≠ 0) (hg : t.port ≠ some 0)
-    (hm : SP ∉ m) (hu : SP ∉ renderT t) (hlf : ∀ c ∈ m ++ SP :: (renderT t ++ SP :: v), c ≠ LF) (pool : Bool) :
+    (hne : m ≠ []) (hm : SP ∉ m) (hu : SP ∉ renderT t)
+    (hlf : ∀ c ∈ m ++ SP :: (renderT t ++ SP :: v), c ≠ LF) (pool : Bool) :
     match handleFirst cfg pool [m ++ SP :: (renderT t ++ SP :: v) ++ CRLF ++ rest] with
     | .connected a tn _ =>
       a = ⟨t.host.bare, derivedPort cfg (m == cfg.connectMethod) t.port⟩ ∧ tn = (m == cfg.connectMethod)
@@ -191,7 +192,7 @@ theorem C14_end_to_end (cfg : Cfg) (m v rest : Bytes) (t : Target)
       simp only [Except.ok.injEq] at hpar
       obtain ⟨p1, hs1, hst1, hv1, hu1, hh1, hp1, ht1⟩ := stepOnce_request_line cfg
         { ty := .request, totalSize := 0 + (m ++ SP :: (renderT t ++ SP :: v) ++ CRLF ++ rest).length, buffer := none }
-        m (renderT t) v rest t.expected rfl rfl hm hu hlf hrt
+        m (renderT t) v rest t.expected rfl rfl hne hm hu hlf hrt
       unfold loop at hl
       simp only [Bool.not_true, Bool.false_or, show (PState.initialized == PState.complete) = false by decide,
         Bool.false_eq_true, if_false, hs1] at hl
